@@ -656,8 +656,74 @@ def extend_contracts(reg):
     it.poison_one_arm = False
     it.run_paths(body2)
     linear_extrapolation_contract(reg)
-    reg.assume("geometric_extrapolation (slit grids) and 'the extrapolated grid is increasing' are covered by the bounded "
-               "constructor runs only")
+    geometric_extrapolation_contract(reg)
+    reg.assume("'the extrapolated grid is increasing' and 'the data points sit between the extensions' are covered by the "
+               "bounded constructor runs only")
+
+
+def geometric_extrapolation_contract(reg):
+    """result[0] <= max(q_min, 0.02 q[0] if q_min <= 0) and result[-1] >= q_max (log-spaced extensions)."""
+    from vp.pymodels import LOG10, POW10
+    from vp.pyvc import LOG
+    fn = "sasmodels.resolution.geometric_extrapolation"
+
+    def body(it):
+        n = z3.Int("n")
+        q = it.new_array("q", n, "real")
+        qmin, qmax = z3.Real("q_min"), z3.Real("q_max")
+        jj = z3.Int("j!pos")
+        import numpy as _np
+        S = q.buf.base_fn
+        # precondition of this contract: the data q are sorted, positive, first <= last (np.sort is then the identity)
+        it.assume(z3.And(n >= 1, S(0) > 0, S(n - 1) >= S(0)))
+        it.models[_np.sort] = lambda it_, a, k: a[0]
+        eff_min = z3.If(qmin <= 0, S(0) * _float(0.02), qmin)
+        # log is increasing; pow10(log10(x)) = x  (instances at the end points the code uses)
+        pts = [eff_min, qmax, S(0), S(n - 1)]
+        for a_ in pts:
+            it.assume(z3.Implies(a_ > 0, POW10(LOG10(a_)) == a_))
+            for b_ in pts:
+                if a_ is not b_:
+                    it.assume(z3.Implies(z3.And(a_ > 0, a_ < b_), z3.And(LOG(a_) < LOG(b_), LOG10(a_) < LOG10(b_))))
+        g = it.get_func("sasmodels.resolution", "geometric_extrapolation")
+        out = it.call(g, [q, Sym(qmin), Sym(qmax)])
+        pc = list(it.pc)
+        ln = out.length()
+        le = ln.e if isinstance(ln, Sym) else z3.IntVal(ln)
+        facts = []
+        for mono in it.__dict__.get("linspace_schemas", []):
+            a_, b_, ne_ = mono.bounds
+            facts += [mono.defn(z3.IntVal(0)), z3.Implies(ne_ >= 2, mono.fn(ne_ - 1) == b_)]
+        rp = lambda mdl=None: replay_geometric_extrapolation()
+        reg.prove("%s.geometric_extrapolation.post.starts_at_or_below_q_min" % PROP, pc + facts + [le >= 1],
+                  z3.Or(out.at(0) <= eff_min, z3.And(qmin >= S(0), out.at(0) == S(0))), function=fn, replay=rp, timeout_ms=60000,
+                  describe="first point = q_min (0.02 q[0] when q_min <= 0) if that is below the data, else the first data point")
+        reg.prove("%s.geometric_extrapolation.post.ends_at_or_above_q_max" % PROP, pc + facts + [le >= 1],
+                  z3.Or(out.at(le - 1) >= qmax, z3.And(qmax <= S(n - 1), out.at(le - 1) == S(n - 1))), function=fn,
+                  replay=rp, timeout_ms=60000)
+        it.discharge_sides(reg, "%s.geometric_extrapolation" % PROP, function=fn)
+    it = Interp(reg)
+    it.poison_one_arm = False
+    try:
+        it.run_paths(body)
+    except OutsideSubset as exc:
+        reg.undecided("%s.geometric_extrapolation.engine" % PROP, "outside subset: %s" % exc, function=fn)
+
+
+def replay_geometric_extrapolation():
+    import numpy as np
+    from sasmodels import resolution
+    bad, out = False, []
+    for q, lo, hi in ((np.array([0.01, 0.02, 0.05]), 0.002, 0.2), (np.array([0.1]), -0.05, 0.3),
+                      (np.array([0.03, 0.01, 0.02]), 0.0, 0.03), (np.array([0.01, 0.1]), 0.02, 0.05)):
+        r = resolution.geometric_extrapolation(q, lo, hi)
+        eff = lo if lo > 0 else 0.02 * q.min()
+        ok = (r[0] <= eff * (1 + 1e-12) or (lo >= q.min() and r[0] == q.min())) and \
+             (r[-1] >= hi * (1 - 1e-12) or (hi <= q.max() and r[-1] == q.max()))
+        bad = bad or not ok
+        out.append({"q": q.tolist(), "q_min": lo, "q_max": hi, "first": float(r[0]), "last": float(r[-1])})
+    return bad, {"call": "geometric_extrapolation(q, q_min, q_max)", "real": out,
+                 "spec": "first <= q_min (or 0.02 q0), last >= q_max unless inside the data range"}
 
 
 def linear_extrapolation_contract(reg):
@@ -794,6 +860,89 @@ def pinhole2d_weights(reg):
               describe="exp(-(r-b/2)^2/2) - exp(-(r+b/2)^2/2) >= 0 for r >= b/2 > 0 (exp increasing)")
 
 
+def pinhole2d_init_contract(reg):
+    """Pinhole2D._init_data: the radial width of the cloud is the data's dqx_data, the tangential one its dqy_data
+    (each at least SIGMA_ZERO), pixel by pixel, and the caller's data arrays are not modified."""
+    import sasmodels.resolution2d as live
+    fn = "sasmodels.resolution2d.Pinhole2D._init_data"
+
+    def body(it):
+        n = z3.Int("n")
+        names = ("qx_data", "qy_data", "q_data", "dqx_data", "dqy_data")
+        arrs = {nm: it.new_array(nm, n, "real") for nm in names}
+        it.assume(n >= 1)
+        data = it.new_obj(None, dict(arrs), "data")
+        seen = {}
+
+        def calc_res(it_, a, k):
+            s = a[0]
+            seen["par"], seen["perp"] = it_.getattr(s, "dqx_data"), it_.getattr(s, "dqy_data")
+            seen["qx"], seen["qy"] = it_.getattr(s, "qx_data"), it_.getattr(s, "qy_data")
+            m = z3.Int("m")
+            return (it_.new_array("qx_calc", m, "real"), it_.new_array("qy_calc", m, "real"), it_.new_array("w", 12, "real"))
+        it.summaries["sasmodels.resolution2d.Pinhole2D._calc_res"] = Summary(calc_res, "_calc_res (contract C04)")
+        selfo = it.new_obj(live.Pinhole2D, {"nr": 3, "nphi": 4, "nsigma": 3.0, "coords": "polar"}, "Pinhole2D")
+        f = it.get_func("sasmodels.resolution2d", "Pinhole2D._init_data")
+        it.call(f, [selfo, data, None])
+        pc = list(it.pc)
+        j = z3.Int("j")
+        rng = [j >= 0, j < n]
+        eps = _float(live.SIGMA_ZERO)
+        rp = lambda mdl=None: replay_pinhole2d_init()
+        if "par" not in seen:
+            reg.prove("%s.Pinhole2D._init_data.builds_the_cloud" % PROP, pc, z3.BoolVal(False), function=fn, replay=rp)
+            return
+        clamp = lambda x: z3.If(x < eps, eps, x)
+        base = {nm: arrs[nm].buf.base_fn for nm in names}
+        ok_types = all(isinstance(seen[k], SArr) for k in ("par", "perp", "qx", "qy"))
+        reg.prove("%s.Pinhole2D._init_data.radial_width_is_dqx_tangential_is_dqy.%s" % (PROP, "all_pixels"), pc + rng,
+                  z3.And(seen["par"].at(j) == clamp(base["dqx_data"](j)), seen["perp"].at(j) == clamp(base["dqy_data"](j)),
+                         seen["qx"].at(j) == base["qx_data"](j), seen["qy"].at(j) == base["qy_data"](j))
+                  if ok_types else z3.BoolVal(False), function=fn, replay=rp)
+        reg.prove("%s.Pinhole2D._init_data.frame.callers_width_arrays_are_not_modified" % PROP, pc + rng,
+                  z3.And(arrs["dqx_data"].at(j) == base["dqx_data"](j), arrs["dqy_data"].at(j) == base["dqy_data"](j)),
+                  function=fn, replay=rp)
+        it.discharge_sides(reg, "%s.Pinhole2D._init_data" % PROP, function=fn)
+    it = Interp(reg)
+    it.poison_one_arm = False
+    try:
+        it.run_paths(body)
+    except OutsideSubset as exc:
+        reg.undecided("%s.Pinhole2D._init_data.engine" % PROP, "outside subset: %s" % exc, function=fn)
+
+
+def replay_pinhole2d_init():
+    """Real Pinhole2D on anisotropic widths including zeros: cloud extent per direction and caller's arrays."""
+    import numpy as np
+    from sasmodels import resolution2d as R2
+
+    class D(object):
+        pass
+    d = D()
+    d.qx_data = np.array([0.05, 0.08, 0.02])
+    d.qy_data = np.array([0.0, 0.0, 0.0])          # q along x: radial = x, tangential = y
+    d.q_data = np.hypot(d.qx_data, d.qy_data)
+    d.dqx_data = np.array([0.01, 0.0, 0.004])
+    d.dqy_data = np.array([0.002, 0.003, 0.0])
+    keep = (d.dqx_data.copy(), d.dqy_data.copy())
+    r = R2.Pinhole2D(data=d, accuracy="high")
+    nq = 3
+    qx = np.asarray(r.q_calc[0]).reshape(-1, nq)
+    qy = np.asarray(r.q_calc[1]).reshape(-1, nq)
+    ext_r = np.max(np.abs(qx - d.qx_data[None, :]), axis=0)
+    ext_t = np.max(np.abs(qy - d.qy_data[None, :]), axis=0)
+    want_r, want_t = np.maximum(keep[0], R2.SIGMA_ZERO), np.maximum(keep[1], R2.SIGMA_ZERO)
+    rmax = 3.0 * (1 - 0.5 / r.nr)
+    bad_cloud = not (np.allclose(ext_r, rmax * want_r, rtol=0.05, atol=1e-9) and np.allclose(ext_t, rmax * want_t, rtol=0.2, atol=1e-9))
+    bad_frame = not (np.array_equal(d.dqx_data, keep[0]) and np.array_equal(d.dqy_data, keep[1]))
+    return bool(bad_cloud or bad_frame), {
+        "call": "Pinhole2D(data with dqx=[0.01,0,0.004], dqy=[0.002,0.003,0])",
+        "real": {"radial_extent": ext_r.tolist(), "tangential_extent": ext_t.tolist(),
+                 "callers_dqx_after": d.dqx_data.tolist(), "callers_dqy_after": d.dqy_data.tolist()},
+        "spec": {"radial_extent": (rmax * want_r).tolist(), "tangential_extent": (rmax * want_t).tolist(),
+                 "callers_dqx_after": keep[0].tolist(), "callers_dqy_after": keep[1].tolist()}}
+
+
 SWEEP = r'''
 import json, sys, warnings
 import numpy as np
@@ -871,6 +1020,7 @@ def check(reg, tier):
     extend_contracts(reg)
     apply_contracts(reg)
     pinhole2d_weights(reg)
+    pinhole2d_init_contract(reg)
     bounded_sweep(reg)
     from contracts import c10
     from vp.core import adopt
